@@ -272,14 +272,20 @@ type Receiver struct {
 
 // EncPacket is v2_enc_packet.
 func (s *Sender) EncPacket(contents, aad []byte, ignore bool) []byte {
+	return s.EncPacketReserved(contents, aad, ignore, 0)
+}
+
+// EncPacketReserved additionally sets reserved header bits (bits 0..6), which
+// a receiver must ignore: only bit 7 makes a packet a decoy.
+func (s *Sender) EncPacketReserved(contents, aad []byte, ignore bool, reserved byte) []byte {
 	if len(contents) > MaxContentsLen {
 		panic("bip324ref: contents too long")
 	}
 	pt := make([]byte, 0, len(contents)+1)
 	if ignore {
-		pt = append(pt, IgnoreBit)
+		pt = append(pt, IgnoreBit|reserved&0x7f)
 	} else {
-		pt = append(pt, 0)
+		pt = append(pt, reserved&0x7f)
 	}
 	pt = append(pt, contents...)
 	body := s.P.Encrypt(aad, pt)
